@@ -163,13 +163,50 @@ PROGRESS_WRITERS = {
 def progress_writers(ctx):
     """per-component progress is measured by these counters: nothing but the component's own step function (and the documented
     reset: DIV write, LCD off, RTC seconds write, DMA start, APU power-on for the frame sequencer) ever writes one"""
-    from props.common import field_writers
+    from props.common import field_writers, not_confined
     bad = {}
     for (stn, fl), ok in PROGRESS_WRITERS.items():
         ws = field_writers(ctx.prog, stn, fl)
-        if not ws <= ok:
-            bad["%s.%s" % (stn, fl)] = sorted(ws - ok)
+        nc = not_confined(ctx.prog, ws, ok)
+        if nc:
+            bad["%s.%s" % (stn, fl)] = nc
     return not bad, "writers of a progress counter outside its step function / documented reset: %s" % bad
+
+
+STEP_OWNERS = {
+    "(*ppu.PPU).EndMachineCycle": ["PPU", "OAM", "Interrupts"],         # pixels, mode-2 window / last OAM row, VBlank+STAT requests
+    "(*memory.Mapper).EndMachineCycle": ["OAM", "rtc"],                   # one DMA step, one RTC tick
+    "(*audio.Audio).EndMachineCycle": ["Audio"],
+    "(*timer.Timer).EndMachineCycle": ["Timer"],
+}
+
+
+def step_ownership(fn, kind="mbc3"):
+    """one step of a component changes that component (and its documented outputs) only: every other object of the machine -
+    the other components, work RAM, the cartridge - is left exactly as it was (heap comparison over the whole machine)"""
+    def run(ctx, eng, ce):
+        lem = Lem()
+        st0, w, m, env = mc.mapper_world(ctx, eng, ce, kind)
+        # callees that have a frame clause of their own (discharged against their bodies in C10/C12/C13/C16/C18-C21) are used
+        # through it; everything else is inlined
+        f = ctx.prog.func(fn)
+        eng.modular = {k for k, cc in ce.contracts.items() if cc.assigns is not None and not cc.inline} - {f.name}
+        recv = {"(*ppu.PPU)": "ppu.PPU", "(*memory.Mapper)": None, "(*audio.Audio)": "audio.Audio", "(*timer.Timer)": "timer.Timer"}[fn.rsplit(".", 1)[0]]
+        a0 = m if recv is None else w.component(recv)
+        extra = "m.audio.ticks >= 1 && m.audio.ticks < 0x3fffffffffffff00 && m.audio.frameSeqTicks < 512"
+        from engine import vsl
+        st0.pc.append(ce.ev.as_bool(ce.ev.eval(vsl.parse(extra), env, st0, st0)))
+        pre = st0.fork()
+        owners = STEP_OWNERS[fn]
+        allowed = {oid for oid, nm in w.objname.items() if any(nm == o or nm.startswith(o + ".") for o in owners)}
+        outs = eng.call_function(st0.fork(), f.name, [a0])
+        viol = [z3.And(s.pcond(), mc.heaps_differ(eng, pre, s, skip=allowed)) for (s, _) in outs]
+        lem.add("lemma:step-ownership:%s-changes-only-%s" % (fn, "+".join(owners)), z3.Or(*viol) if viol else z3.BoolVal(True),
+                info={"detail": "objects that may change: %s" % sorted(allowed)})
+        lem.covers.append(("lemma:step-ownership:%s#cover" % fn, z3.Or(*[s.pcond() for s, _ in outs]) if outs else z3.BoolVal(False)))
+        lem.stats = dict(eng.stats)
+        return lem
+    return LemmaTask("step-ownership:" + fn, run, [fn])
 
 
 def tasks(ctx):
@@ -204,6 +241,7 @@ def tasks(ctx):
     ts.append(Task("(*oam.OAM).TickDMA", "(*oam.OAM).TickDMA", args=pc.tickdma_args, keep=keep_labels({"idle", "setup", "first", "copy", "last", "ok"})))
     # the machine that runs is the one gameboy.New builds: one object per component, all references consistent
     ts.append(LemmaTask("lemma:power-on", lambda c, e, ce: wr.power_on(c, e, ce, invariants=False), ["gameboy.New", "memory.New", "cpu.New", "ppu.New", "audio.New"]))
+    ts.extend(step_ownership(fn) for fn in STEP_OWNERS)
     ts.append(scan_lemma("scan:progress-counters-written-only-by-their-step-functions", progress_writers, ["all component packages (SSA scan)"]))
     ts.append(scan_lemma("scan:runFrame-loop-body-order", loop_body_scan, ["(*gameboy.Gameboy).runFrame (SSA scan)"]))
     ts.append(scan_lemma("scan:gameboy.New-wiring", wiring_scan, ["gameboy.New (SSA scan)"]))
